@@ -8,6 +8,9 @@ Entry points exercised on the real code (from /repo through the overlay importer
       values_in_world / xyz_ordered,  volume_grid.VolumeGrid.values_in_world / as_volume_img
   nipy.algorithms.registration.groupwise_registration.resample4d / Realign4dAlgorithm.resample
   cubic_spline.c: cubic_spline_transform / cubic_spline_sample3d (all boundary-mode triples)
+  wave 3 (harness/props/c04_w3.py): images as_xyz_image re-orders, Image4d / Realign4dAlgorithm histories with
+      time interpolation (cubic_spline_sample4d, scanner_time), ImageInterpolator histories, resample between
+      spaces of different dimension, xyz_ordered on 4-D data with its interpolation carried over
 
 Correspondence: the matrix/offset (or coordinate array) each entry point hands to its numerical
 routine, the dtype of what it returns, and the output array are compared with the Lean model
@@ -27,6 +30,7 @@ import numpy as np
 
 from harness.core import PropertyCheck
 from harness.util import Snapshot, errname, fr, frs, parse_rats
+from harness.props.c04_w3 import W3Mixin, observed_axes, present_raw, raw_image, translate_consts
 from harness.props.c04_lib import (CS_MODES, INT_DTYPES, LAYOUTS, LOOSE, MODES, SRC_DTYPES, ArrayProxy, F, H,
                                    all_idx, base_array, cast_oracle, cs_ext_index, cs_glue, cs_glue4, cs_lib, ext_exact,
                                    ext_index, f_apply, f_comp, f_ident, f_inv, inside, is_exact, lay_out,
@@ -175,10 +179,11 @@ def int_field(rng, n, sshape, dtype):
     return [1] + [0] * n
 
 
-class C04(PropertyCheck):
+class C04(W3Mixin, PropertyCheck):
     id = "C04"
     title = "Resampling samples the source at the mapped world location"
-    lean_modules = ["NipyVerif.Props.C04", "NipyVerif.Props.C04B"]
+    lean_modules = ["NipyVerif.Props.C04", "NipyVerif.Props.C04B", "NipyVerif.Props.C04C",
+                    "NipyVerif.Props.C04Source"]
     driver = "Drivers/C04.lean"
     rule = ("cases are (entry point, source grid, target grid, world transform and its form, order, boundary mode, "
             "cval, source dtype, memory layout / container, requested dtype) tuples from a seeded PRNG; lattice "
@@ -186,8 +191,18 @@ class C04(PropertyCheck):
             "sub-sampling, also shifted by several array lengths), field cases carry a linear intensity (integer-"
             "valued for integer dtypes) under half/quarter/eighth-voxel maps, generic cases arbitrary float affines; "
             "bidx / cast / cs cases tie SciPy's index extension, the float->integer conversions and the C sampler "
-            "to the model; non-trivial = the voxel map is not the identity or the transform is not the identity or "
-            "the order is > 0; distinct by full JSON of the case")
+            "to the model; wave 3: registration cases hand the moving / reference image over with world names and "
+            "array axes in any order (as_xyz_image re-orders), all four voxel/world flag pairs; every order 0..5 x "
+            "every boundary mode x every numerical route once per run; realign4 = one Image4d / one "
+            "Realign4dAlgorithm with several operations in sequence (resample4d / Realign4d.resample / resample(t) / "
+            "set_transform / caller edits; time interpolation on and off; slice axis 0..2, both directions, "
+            "synchronous / ascending / descending / interleaved slice times; lazy data); ihist = one "
+            "ImageInterpolator with evaluate / cval edits / in-place edits of the image array / attempts to set "
+            "order or mode, on ndarray, Fortran, read-only, proxy and memmapped data; resamplek = image, world and "
+            "grid dimensions all different (slices, curves, a volume replicated along an extra axis), identity "
+            "coordmaps on either side (mapping from / to voxels); xyz cases carry an interpolation, 4-D+ data and "
+            "off-grid probe points; non-trivial = the voxel map is not the identity or the transform is not the "
+            "identity or the order is > 0; distinct by full JSON of the case")
     assumptions = [
         "the interpolators (scipy.ndimage spline interpolation with its pre-filter, cubic_spline.c's pre-filter) enter "
         "the theorems only through the hypotheses Interp.at_lattice / FillsOutside / Extends / LinearExact / "
@@ -203,27 +218,74 @@ class C04(PropertyCheck):
         "from the tree under test",
         "VolumeImg.as_volume_img with a 3x3 affine (bounding-box search) and VolumeGrid with non-affine "
         "transforms are oracle-only",
+        "as_xyz_image: the array-axis order it derives from io_orientation is a parameter of the model (observed "
+        "on the implementation, any permutation keeps every sample at its world position: as_xyz_same_world); "
+        "voxel coordinates of the *_voxel_coords flags are those of the re-ordered image, as the code has it",
+        "time interpolation: the 4-D B-spline coefficients are the hypothesis IsSplineCoef4; off the time grid the "
+        "oracle compares with an independent scipy cubic spline (whole-sample symmetric ends) of the voxel's series "
+        "at the slice-corrected time, tolerance 1e-7 of the data scale; points outside the field of view under the "
+        "C `reflect` modes are correspondence-only",
+        "ImageInterpolator: the knots are a snapshot of the image data (taken at construction, retaken when a cval "
+        "edit has to rebuild a grid-constant pre-pad) - the model states which; the oracle accepts the sample of "
+        "any version of the image data the caller has had since construction and demands the current fill value",
+        "Realign4dAlgorithm histories: which transform a working-array column reflects is observed by comparing "
+        "with fresh objects of the real code (bitwise-equal columns may match several candidates)",
     ]
-    level_note = ("pipeline composition, dtype pipeline (both rounding rules), lattice lookup under every boundary "
-                  "mode, fill value, linear-field, pre-pad, cubic-spline sampler at grid points and coordmap clauses "
-                  "proved for all inputs of the model; interpolator laws are hypotheses (instances: order 0 in any "
-                  "dimension under every mode, order 1 in 1-D)")
+    level_note = ("pipeline composition (general resampler for any image / world / grid dimensions, registration "
+                  "resampler incl. images as_xyz_image re-orders, 4-D realignment with slice-timed time "
+                  "coordinates, VolumeImg), dtype pipeline (both rounding rules), lattice lookup under every "
+                  "boundary mode, fill value, linear-field, pre-pad, cubic-spline sampler at grid points in 3-D and "
+                  "4-D, coordmap clauses and the object histories (ImageInterpolator: read-only order/mode, fill "
+                  "value of the pre-pad always current, snapshot; Realign4dAlgorithm: column provenance) proved for "
+                  "all inputs of the model; interpolator laws are hypotheses (instances: order 0 and order 1 "
+                  "(multilinear) in any dimension under every mode); spline values off the grid, "
+                  "interp_slice_times outside the slice stack and the motion estimation are not claimed")
     finding_keys = {}
 
     # ------------------------------------------------------------------
+    def translators(self):
+        from harness.core import REPO, TieBroken
+        return translate_consts(REPO, TieBroken)
+
     def generate(self, rng, tier):
         q = tier == "quick"
         cases = []
         counts = dict(resample=700, reg=580, vol=400, xyz=120, interp=280, realign=36, cast=60, cs=80,
-                      refuse=40) if q else \
+                      refuse=40, realign4=40, ihist=150, resamplek=220) if q else \
             dict(resample=12000, reg=10000, vol=7000, xyz=1500, interp=5000, realign=500, cast=800, cs=1200,
-                 refuse=300)
+                 refuse=300, realign4=600, ihist=3000, resamplek=4000)
         for kind, cnt in counts.items():
             g = getattr(self, "_gen_" + kind)
             for _ in range(cnt):
                 cases.append(g(rng))
         cases += self._gen_bidx_all(rng, q)
+        cases += self._gen_modes_all(rng, q)
         return cases
+
+    def _gen_modes_all(self, rng, quick):
+        """every interpolation order 0..5 under every boundary mode through every numerical route
+        (affine_transform / ImageInterpolator with and without pre-pad / registration fast, ndimage and
+        generic paths): one lattice map reaching far outside the array each; thorough: also arbitrary maps"""
+        out = []
+        routes = [("resample", {"entry": "resample", "mkind": "matrix"}),
+                  ("resample", {"entry": "resample", "mkind": "callable"}),
+                  ("resample", {"entry": "img2img"}),
+                  ("reg", {"tkind": "matrix"}), ("reg", {"tkind": "generic"}), ("interp", {})]
+        tasks = ["lookup"] if quick else ["lookup", "lookup", "generic", "sub"]
+        for gen, want in routes:
+            for task in tasks:
+                for order in range(6):
+                    if task == "sub" and order > 1:
+                        continue
+                    for mode in MODES:
+                        for _ in range(400):
+                            c = getattr(self, "_gen_" + gen)(rng)
+                            if all(c.get(k) == v for k, v in want.items()) and c.get("task", task) == task \
+                                    and not c.get("mismatch"):
+                                break
+                        c["order"], c["mode"] = order, mode
+                        out.append(c)
+        return out
 
     @staticmethod
     def _shape(rng, n, big=False):
@@ -334,6 +396,12 @@ class C04(PropertyCheck):
              "movvox": movvox, "refvox": refvox, "tkind": tkind, "task": task, "zkind": zk, "order": order,
              "mode": mode, "cval": cval, "dseed": rng.randrange(10 ** 6), "dtype": asked, "sdtype": sdtype,
              "layout": rng.choice(LAYOUTS), "ref_as_tuple": rng.random() < 0.5}
+        # the moving / reference image handed over with world axes listed in another order than
+        # x, y, z and the array axes in any order: as_xyz_image has to re-order them first
+        if rng.random() < 0.4:
+            c["mperm"] = {"codes": rand_perm(rng, 3), "q": rand_perm(rng, 3)}
+        if not c["ref_as_tuple"] and rng.random() < 0.4:
+            c["rperm"] = {"codes": rand_perm(rng, 3), "q": rand_perm(rng, 3)}
         if task == "field":
             if sdtype in INT_DTYPES:
                 c["lvox"] = int_field(rng, 3, sshape, sdtype)
@@ -349,6 +417,13 @@ class C04(PropertyCheck):
             Z, tshape, zk = rand_lattice_map(rng, 3, sshape)
             if rng.random() < 0.12:
                 Z, tshape, zk = f_ident(3), list(sshape), "same-affine"
+            elif rng.random() < 0.2:
+                # a crop / pad of the grid: the target's 3x3 part equals the source's (whatever axis
+                # permutation and flips that is), only the origin and the shape differ
+                sh = [rng.choice([-3, -2, -1, 0, 1, 2]) for _ in range(3)]
+                Z = [[Fraction(int(i == j)) for j in range(3)] + [Fraction(sh[i])] for i in range(3)]
+                tshape = [max(1, sshape[i] - sh[i] + rng.choice([-2, 0, 1, 3])) for i in range(3)]
+                zk = "crop-pad"
             tgt = f_comp(src, Z)
             srcf, tgtf = tofloat(src), tofloat(tgt)
         elif rng.random() < 0.5:
@@ -376,7 +451,13 @@ class C04(PropertyCheck):
         b = [Fraction(rng.randrange(-10, 11)) / 2 for _ in range(3)]
         aff = [A[i] + [b[i]] for i in range(3)]
         return {"kind": "xyz", "sshape": sshape, "aff": tofloat(aff), "dseed": rng.randrange(10 ** 6),
-                "rot": rng.random() < 0.08, "sdtype": pick_sdtype(rng), "layout": rng.choice(LAYOUTS)}
+                "rot": rng.random() < 0.08, "sdtype": pick_sdtype(rng), "layout": rng.choice(LAYOUTS),
+                "interp": rng.choice(["nearest", "continuous"]), "extra": rng.choice([[], [], [2], [2, 2]]),
+                # off-grid probe points (voxel coordinates of the original image)
+                # (no half-way positions: nearest-neighbour ties may legitimately fall either side)
+                # and none on the border of the field of view, where round-off decides inside / outside)
+                "probe": [] if min(sshape) < 2 else
+                [[rng.randrange(0, s_ - 1) + rng.choice([0.25, 0.75]) for s_ in sshape] for _ in range(4)]}
 
     def _gen_interp(self, rng):
         n = rng.choice([2, 3, 3])
@@ -522,7 +603,8 @@ class C04(PropertyCheck):
                 continue
             t = tol
             if isinstance(e, tuple):
-                e, t = e[0], max(tol, LOOSE * scale)
+                # (integer outputs: the rounded value of an approximation within LOOSE)
+                e, t = e[0], (tol + LOOSE * scale if tol >= 0.5 else max(tol, LOOSE * scale))
             if not (abs(got[k] - e) <= t):
                 return f"{name}: target voxel #{k} holds {got[k]!r} but {what} is {e!r}"
         return None
@@ -798,11 +880,11 @@ class C04(PropertyCheck):
 
     # ---- nipy.algorithms.registration.resample -------------------------
     def _run_reg(self, c):
-        from nipy.core.image.image_spaces import make_xyz_image, xyz_affine
+        from nipy.core.image.image_spaces import as_xyz_image, make_xyz_image, xyz_affine
         import importlib
         RR = importlib.import_module("nipy.algorithms.registration.resample")
         from nipy.algorithms.registration.affine import Affine, Rigid
-        sshape, tshape = c["sshape"], c["tshape"]
+        sshape, tshape = list(c["sshape"]), list(c["tshape"])
         mov, T, ref = F(c["mov"]), F(c["T"]), F(c["ref"])
         movInv = f_inv(mov)
         mode, order, sdt, asked = c["mode"], c["order"], c.get("sdtype", "float64"), c["dtype"]
@@ -823,16 +905,60 @@ class C04(PropertyCheck):
             T = F(Th[:3].tolist())
         else:
             transform = _GenericTransform(lambda pts: np.dot(pts, Th[:3, :3].T) + Th[:3, 3])
+        # presentation with re-ordered axes: what as_xyz_image makes of it is the (mov, data) /
+        # (ref, shape) pair everything below is stated for
+        pm, pr = c.get("mperm"), (None if c["ref_as_tuple"] else c.get("rperm"))
+        mraw = rraw = None
+        lv = c.get("lvox")
+        if pm:
+            mraw = present_raw(mov, pm["codes"], pm["q"])
+            s_ = observed_axes(mraw, [sshape[a] for a in pm["q"]])
+            if s_ is None:
+                pm = mraw = None
+        if pm:
+            mraw["r2o"] = mraw["ao"] = s_
+            perm_ = [pm["q"][j] for j in s_]            # observed axis j = planned axis perm_[j]
+            mov = [[row[a] for a in perm_] + [row[3]] for row in mov]
+            sshape = [sshape[a] for a in perm_]
+            if lv is not None:
+                lv = [lv[a] for a in perm_] + [lv[3]]
+            movInv = f_inv(mov)
+        if pr:
+            rraw = present_raw(ref, pr["codes"], pr["q"])
+            s_ = observed_axes(rraw, [tshape[a] for a in pr["q"]])
+            if s_ is None:
+                pr = rraw = None
+        if pr:
+            rraw["r2o"] = rraw["ao"] = s_
+            perm_ = [pr["q"][j] for j in s_]
+            ref = [[row[a] for a in perm_] + [row[3]] for row in ref]
+            tshape = [tshape[a] for a in perm_]
         t1 = T if c["refvox"] else f_comp(T, ref)
         M = t1 if c["movvox"] else f_comp(movInv, t1)
+        cf = dict(c)
+        if lv is not None:
+            cf["lvox"] = lv
         if c["task"] == "field":
             # the field is linear in moving-image world coordinates
-            L, fexp, vals = self._field_parts(c, mov, M, tshape, sshape, c["cval"], mode)
-            obj, data = self._typed(c, sshape, vals)
+            L, fexp, vals = self._field_parts(cf, mov, M, tshape, sshape, c["cval"], mode)
+            arr_ = np.asarray(vals).astype(sdt)
+            if not np.array_equal(np.asarray(arr_, float), np.asarray(vals, float)):
+                raise AssertionError("field values not representable in " + sdt)
         else:
-            obj, data = self._typed(c, sshape)
-        moving = make_xyz_image(obj, H(mov), "scanner")
-        reference = (tuple(tshape), H(ref)) if c["ref_as_tuple"] else make_xyz_image(np.zeros(tshape), H(ref), "scanner")
+            arr_ = make_typed(c["dseed"], sshape, sdt)
+        data = np.asarray(arr_, dtype=np.float64)
+        raw_arr = arr_ if mraw is None else np.transpose(arr_, np.argsort(mraw["r2o"]))
+        obj = lay_out(raw_arr, c.get("layout", "C"))
+        if mraw is None:
+            moving = make_xyz_image(obj, H(mov), "scanner")
+        else:
+            moving = raw_image(obj, mraw)
+        if c["ref_as_tuple"]:
+            reference = (tuple(tshape), H(ref))
+        elif rraw is None:
+            reference = make_xyz_image(np.zeros(tshape), H(ref), "scanner")
+        else:
+            reference = raw_image(np.zeros([tshape[a] for a in np.argsort(rraw["r2o"])]), rraw)
         cap = {}
         cs_res, cs_s3, cs_tr = cs_glue(cap)
         saved = (RR.affine_transform, RR.map_coordinates, RR._cspline_resample3d, RR._cspline_sample3d,
@@ -856,7 +982,8 @@ class C04(PropertyCheck):
             kw["dtype"] = np.dtype(asked)
         tags = ["reg", "transform=" + tk, "task=" + c["task"], "z=" + c["zkind"], f"order={order}",
                 "mode=" + mode, f"movvox={int(c['movvox'])}", f"refvox={int(c['refvox'])}",
-                "dtype=" + str(asked), "sdtype=" + sdt, "layout=" + c.get("layout", "C")]
+                "dtype=" + str(asked), "sdtype=" + sdt, "layout=" + c.get("layout", "C"),
+                "mov-reordered" if mraw else "mov-xyz", "ref-reordered" if rraw else "ref-xyz"]
         try:
             out = RR.resample(moving, transform, reference, mov_voxel_coords=c["movvox"],
                               ref_voxel_coords=c["refvox"], interp_order=order, mode=mode,
@@ -872,10 +999,33 @@ class C04(PropertyCheck):
         raw = np.asarray(out.get_fdata())
         arr = np.asarray(raw, dtype=float)
         is_aff = tk != "generic"
-        head = (f"reg {aff_txt(movInv)} {aff_txt(mov)} {aff_txt(T)} {aff_txt(ref)} {int(c['movvox'])} "
-                f"{int(c['refvox'])} {int(is_aff)} {order} {mode} {fr(c['cval'])}")
+        t_tshape, t_data, t_sshape = tshape, data, sshape      # what the model's task lines are given
+        pre_lines, pre_impl = [], []
+        if mraw is None and rraw is None:
+            head = (f"reg {aff_txt(movInv)} {aff_txt(mov)} {aff_txt(T)} {aff_txt(ref)} {int(c['movvox'])} "
+                    f"{int(c['refvox'])} {int(is_aff)} {order} {mode} {fr(c['cval'])}")
+        else:
+            # the arrays and affines as handed over: the model re-orders them (as_xyz_image)
+            ident = {"codes": [0, 1, 2], "ao": [0, 1, 2]}
+            mr = mraw or dict(ident, aff=mov)
+            rr = rraw or dict(ident, aff=ref)
+            head = (f"regx {' '.join(map(str, mr['codes']))} {' '.join(map(str, mr['ao']))} {aff_txt(mr['aff'])} "
+                    f"{aff_txt(movInv)} {' '.join(map(str, rr['codes']))} {' '.join(map(str, rr['ao']))} "
+                    f"{aff_txt(rr['aff'])} {aff_txt(T)} {int(c['movvox'])} {int(c['refvox'])} {int(is_aff)} "
+                    f"{order} {mode} {fr(c['cval'])}")
+            if mraw is not None:
+                t_data = np.transpose(data, np.argsort(mraw["r2o"]))
+                t_sshape = list(t_data.shape)
+                xm = as_xyz_image(moving)
+                pre_lines.append(f"asxyz {' '.join(map(str, mraw['codes']))} {' '.join(map(str, mraw['ao']))} "
+                                 f"{aff_txt(mraw['aff'])} {' '.join(map(str, t_sshape))} {frs(t_data.ravel().tolist())}")
+                xd = np.asarray(xm.get_fdata(), float)
+                pre_impl.append(("xyz", np.array(xyz_affine(xm), float)[:3].ravel().tolist(), list(xd.shape),
+                                 xd.ravel().tolist()))
+            if rraw is not None:
+                t_tshape = [tshape[a] for a in np.argsort(rraw["r2o"])]
         routine = regroutine(is_aff, order, mode, c["cval"])
-        lines, impl = [head + " mat"], []
+        lines, impl = pre_lines + [head + " mat"], list(pre_impl)
         if "mat" in cap:
             impl.append(("pathmat", cap.get("routine"), cap["mat"].ravel().tolist()))
         else:
@@ -918,7 +1068,7 @@ class C04(PropertyCheck):
             fail = fail or self._check_expected(where, arr, cast_oracle(exp, out_dt), tol,
                                                 "the source sample at the mapped grid point (boundary mode / fill "
                                                 "value outside)", sc)
-            lines.append(head + " " + self._lookup_tail(sdt, asked, order, mode, tshape, data, c["cval"]))
+            lines.append(head + " " + self._lookup_tail(sdt, asked, order, mode, t_tshape, t_data, c["cval"]))
             impl.append(("tvals", routine + " ", raw.dtype.name, arr.ravel().tolist(), mtol, skip,
                          inexact or fast or order > 1))
         elif c["task"] == "field":
@@ -926,7 +1076,7 @@ class C04(PropertyCheck):
                                                 cast_oracle(drop(fexp), out_dt), tol,
                                                 "the field at the mapped world position (the fill value outside "
                                                 "the field of view)", sc)
-            lines.append(head + " " + self._field_tail(sdt, asked, mode, tshape, sshape, L, c["cval"]))
+            lines.append(head + " " + self._field_tail(sdt, asked, mode, t_tshape, t_sshape, L, c["cval"]))
             impl.append(("tvals", routine + " ", raw.dtype.name, arr.ravel().tolist(), mtol, skip, inexact))
         else:
             if not fast:
@@ -939,7 +1089,7 @@ class C04(PropertyCheck):
                 fail = fail or self._check_expected(where, arr, cast_oracle(ref_, out_dt), max(tol, 1e-6 * sc),
                                                     "the source interpolated at the mapped location", sc)
             if c["task"] == "sub" and not inexact:
-                lines.append(head + " " + self._sub_tail(sdt, asked, order, mode, tshape, data, c["cval"]))
+                lines.append(head + " " + self._sub_tail(sdt, asked, order, mode, t_tshape, t_data, c["cval"]))
                 impl.append(("tvals", routine + " ", raw.dtype.name, arr.ravel().tolist(), mtol, skip, False))
         return {"lines": lines, "impl": impl, "oracle": fail,
                 "nontrivial": True, "tags": tags + ["routine=" + str(cap.get("routine"))], "mutated": mut}
@@ -1092,16 +1242,20 @@ class C04(PropertyCheck):
         from nipy.labs.datasets.transforms.transform import CompositionError
         from nipy.labs.datasets.volumes.volume_img import VolumeImg
         sshape = c["sshape"]
+        extra = list(c.get("extra", []))
+        interp = c.get("interp", "continuous")
         aff = F(c["aff"])
         if c["rot"]:
             aff[0][1] += Fraction(1, 2)
             aff[1][0] += Fraction(1, 4)
-        obj, data = self._typed(c, sshape)
-        img = VolumeImg(obj, H(aff), "w")
+        obj, data = self._typed(c, list(sshape) + extra)
+        img = VolumeImg(obj, H(aff), "w", interpolation=interp, metadata={"tag": 1})
         snap = Snapshot(data=base_array(obj), aff=img.affine)
-        line = f"xyz {aff_txt(aff)} {' '.join(map(str, sshape))} {frs(data.ravel().tolist())}"
+        d0 = data.reshape(list(sshape) + [-1])[..., 0]
+        line = f"xyz {aff_txt(aff)} {' '.join(map(str, sshape))} {frs(d0.ravel().tolist())}"
         cols_ok = all(sum(1 for i in range(3) if abs(aff[i][j]) > Fraction(1, 1000)) == 1 for j in range(3))
-        tags = ["xyz", "rot" if not cols_ok else "axis-aligned", "sdtype=" + c.get("sdtype", "float64")]
+        tags = ["xyz", "rot" if not cols_ok else "axis-aligned", "sdtype=" + c.get("sdtype", "float64"),
+                "interp=" + interp, f"extra={len(extra)}"]
         try:
             out = img.xyz_ordered()
         except CompositionError:
@@ -1114,7 +1268,8 @@ class C04(PropertyCheck):
         mut = snap.changed()
         oaff = np.array(out.affine, float)
         oraw = np.asarray(out.get_fdata())
-        odata = np.asarray(oraw, float)
+        ofull = np.asarray(oraw, float)
+        odata = ofull.reshape(list(ofull.shape[:3]) + [-1])
         fail = None
         if cols_ok:
             A = oaff[:3, :3]
@@ -1122,22 +1277,47 @@ class C04(PropertyCheck):
                 fail = "xyz_ordered: resulting affine is not diagonal positive"
             elif oraw.dtype != np.dtype(c.get("sdtype", "float64")):
                 fail = f"xyz_ordered (no resampling) changed the data dtype to {oraw.dtype.name}"
+            elif list(ofull.shape[3:]) != extra:
+                fail = f"xyz_ordered changed the non-spatial axes: {ofull.shape[3:]} from {tuple(extra)}"
+            elif out.interpolation != interp or out.world_space != "w" or out.metadata != {"tag": 1}:
+                fail = (f"xyz_ordered of an image with interpolation={interp!r} returned one with interpolation="
+                        f"{out.interpolation!r} (world space {out.world_space!r}, metadata {out.metadata!r}): later "
+                        f"resampling of the re-ordered image would not interpolate as the image declares")
             else:
                 inv = f_inv(aff)
                 oa = F(oaff[:3].tolist())
-                for v in all_idx(odata.shape):
+                dall = data.reshape(list(sshape) + [-1])
+                for v in all_idx(odata.shape[:3]):
                     w = f_apply(oa, [Fraction(t) for t in v])
                     p = f_apply(inv, w)
                     ok = all(t.denominator == 1 for t in p) and inside(tuple(int(t) for t in p), sshape)
-                    if not ok or data[tuple(int(t) for t in p)] != odata[v]:
+                    if not ok or not np.array_equal(dall[tuple(int(t) for t in p)], odata[v]):
                         fail = (f"xyz_ordered: voxel {v} of the reordered image lies at world position "
-                                f"{[float(t) for t in w]} and holds {odata[v]!r}; the original image has "
-                                + (f"{data[tuple(int(t) for t in p)]!r}" if ok else "no sample") + " there")
+                                f"{[float(t) for t in w]} and holds {odata[v].tolist()!r}; the original image has "
+                                + (f"{dall[tuple(int(t) for t in p)].tolist()!r}" if ok else "no sample") + " there")
                         break
                 if fail is None and odata.size != data.size:
                     fail = "xyz_ordered changed the number of samples"
-        impl = ("xyz", oaff[:3].ravel().tolist(), list(odata.shape), odata.ravel().tolist())
-        return {"lines": [line], "impl": [impl], "oracle": fail, "nontrivial": True, "tags": tags, "mutated": mut}
+            if fail is None and c.get("probe"):
+                # the re-ordered image is the same image: it interpolates to the same values at every
+                # world position (here: off-grid positions inside the field of view)
+                wp = np.array([[float(t) for t in f_apply(aff, [Fraction(x) for x in q])] for q in c["probe"]]).T
+                try:
+                    va = np.asarray(img.values_in_world(wp[0], wp[1], wp[2]), float)
+                    vb = np.asarray(out.values_in_world(wp[0], wp[1], wp[2]), float)
+                except Exception as e:   # noqa
+                    va = vb = None
+                    fail = f"values_in_world on the xyz_ordered image raised {type(e).__name__}: {e}"
+                if va is not None and (va.shape != vb.shape or not np.allclose(va, vb, rtol=0, atol=1e-6 * scale_of(data))):
+                    fail = (f"the xyz_ordered image (interpolation {out.interpolation!r}) and the original "
+                            f"({interp!r}) give different values at world points {wp.T.tolist()}: "
+                            f"{vb.ravel()[:6].tolist()} against {va.ravel()[:6].tolist()}")
+        impl = ("xyz", oaff[:3].ravel().tolist(), list(odata.shape[:3]), odata[..., 0].ravel().tolist())
+        lines, impls = [line], [impl]
+        if cols_ok:
+            lines.append(f"xyzattr {interp}")
+            impls.append(("str", str(out.interpolation)))
+        return {"lines": lines, "impl": impls, "oracle": fail, "nontrivial": True, "tags": tags, "mutated": mut}
 
     # ---- 4-D realignment resampling ---------------------------------------
     def _run_realign(self, c):
@@ -1392,6 +1572,8 @@ class C04(PropertyCheck):
     # ------------------------------------------------------------------
     def compare(self, case, impl_obs, model_out):
         kind = impl_obs[0]
+        if kind in ("prov", "r4", "ihist", "volh", "pcoords"):
+            return self._compare_w3(case, impl_obs, model_out)
         if kind == "err":
             return None if model_out == impl_obs[1] else f"impl={impl_obs[1]} model={model_out}"
         if kind == "str":
@@ -1455,7 +1637,10 @@ class C04(PropertyCheck):
                     # exact arithmetic: the rounding rule decides ties; inexact: either neighbour
                     # (inexact: Affine objects rebuilt from a matrix, spline pre-filters — a value within
                     # rounding error of a tie may go either way)
-                    lim = 1.0 if inexact else 0.0
+                    # an exact tie (`~`: the exact value is x.5): the float result may sit one ulp on
+                    # either side of it (boundary folding, pre-filters), so either neighbour is accepted
+                    # there; the rounding rules themselves are tied by the `cast` lines
+                    lim = 1.0 if (inexact or tie) else 0.0
                     if abs(a - b) > lim:
                         return f"target voxel #{k}: impl={a!r} model={b!r} (dtype {impl_obs[2]})"
                 elif abs(a - b) > tol:
